@@ -206,10 +206,11 @@ deriving DecidableEq, Repr
 abbrev Rounding := Fmt → Rat → Option Rat
 
 /-- The two facts about the rounding function on which the floating-point clauses of the theorems
-rest (explicit hypotheses, never axioms): a rounded result is a value of the format, and every
-binary32 value is a binary64 value. -/
+rest: a rounded result is a value of the format (for every format with at least one significand
+bit), and every binary32 value is a binary64 value.  `AuProofs.Lemmas.ChronoRne` proves them for
+`rne` below (`rne_roundingOK`). -/
 structure RoundingOK (R : Rounding) : Prop where
-  idem : ∀ F q v, R F q = some v → R F v = some v
+  idem : ∀ F q v, 1 ≤ F.prec → R F q = some v → R F v = some v
   widen : ∀ v, R Fmt.single v = some v → R Fmt.double v = some v
 
 /-- Whether `x` is a value of rep `r`. -/
